@@ -428,23 +428,33 @@ ThreadPool::~ThreadPool() {
   }
   threads_.clear();
 
-  // Drain central queue
-  while (tryExecuteNext()) {
-  }
+  // A drained task may itself schedule more work to this pool (into any tier), so repeat until a
+  // full pass over all tiers finds nothing.
+  bool ranAny;
+  do {
+    ranAny = false;
 
-  // Drain all rings in the arena (including shadow entries)
-  for (size_t i = 0; i < rings_.size(); ++i) {
-    OnceFunction task;
-    while (rings_[i].try_pop(task)) {
-      task();
+    // Drain central queue
+    while (tryExecuteNext()) {
+      ranAny = true;
     }
-  }
-  for (size_t i = 0; i < stealRings_.size(); ++i) {
-    OnceFunction task;
-    while (stealRings_[i].try_pop(task)) {
-      task();
+
+    // Drain all rings in the arena (including shadow entries)
+    for (size_t i = 0; i < rings_.size(); ++i) {
+      OnceFunction task;
+      while (rings_[i].try_pop(task)) {
+        task();
+        ranAny = true;
+      }
     }
-  }
+    for (size_t i = 0; i < stealRings_.size(); ++i) {
+      OnceFunction task;
+      while (stealRings_[i].try_pop(task)) {
+        task();
+        ranAny = true;
+      }
+    }
+  } while (ranAny);
   // wakeState_ graveyard freed by RAII (vector destructor)
 }
 ThreadPool& globalThreadPool() {
